@@ -81,6 +81,8 @@ def generate(st):
         'giant': (sw.random() < (0.01 if getattr(st, 'deep', False) else 0.001)),     # a container with hundreds of plain members          # containers with many members
         'shared_containers': sw.random() < 0.3,      # the caller refills the SAME container objects and waits again
         'kwcall': sw.random() < 0.2,                 # waiter(value=...) instead of waiter(...)
+        'all_lazy': sw.random() < 0.12,              # no coroutine objects at all: every awaitable is an object with __await__, a Future or a Task
+        'records': sw.random() < 0.2,                # lists of dicts with one key set, written in different orders
         # somebody else in the same process waits on a structure of their own at the same time (delays of its three awaitables)
         'twin': [sw.choice(DELAYS), sw.choice(DELAYS), sw.choice(DELAYS)] if sw.random() < 0.3 else None,
     }
@@ -91,6 +93,8 @@ def generate(st):
         i = len(leaves)
         kind = g.choice(cfg['kinds'])
         leaf = {'kind': kind, 'delay': g.choice(cfg['delays'])}
+        if kind in ('sleep', 'imm', 'gen', 'twostage', 'dep') and g.random() < (1.0 if cfg.get('all_lazy') else 0.15):
+            leaf['lazy'] = True      # handed over as a lazy awaitable object instead of a coroutine
         if cfg.get('falsy_results') and g.random() < 0.4:
             leaf['res'] = g.choice(sorted(RES))
         leaves.append(leaf)
@@ -125,7 +129,18 @@ def generate(st):
         n = g.choice([0, 1, 2, 2, 3, 3, 4]) if not (cfg.get('wide') and g.random() < 0.4) else g.choice([5, 6, 8, 11])
         if cfg.get('giant') and top:
             n = g.choice([511, 512, 513, 1024, 1025])
-        items = [build(depth_left - 1, False) for _ in range(n)]
+        if cfg.get('records') and c in ('list', 'tuple') and 2 <= n <= 4 and g.random() < 0.5:
+            # records: dicts with the same keys, not necessarily written in the same order
+            kk = g.sample(['bid', 'ask', 'mid', 'a', 'b', 0], g.choice([2, 3]))
+            items = []
+            for _ in range(n):
+                ks_ = list(kk)
+                g.shuffle(ks_)
+                sub_ = {'t': 'dict', 'items': [build(0, False) for _ in ks_], 'id': len(made), 'keys': ks_}
+                made.append({'id': sub_['id'], 'ok': _multi_ok(sub_, leaves)})
+                items.append(sub_)
+        else:
+            items = [build(depth_left - 1, False) for _ in range(n)]
         node = {'t': c, 'items': items, 'id': len(made)}
         # a container may appear twice only if everything in it can be awaited twice (coroutine objects cannot)
         made.append({'id': node['id'], 'ok': _multi_ok(node, leaves)})
@@ -204,6 +219,16 @@ def _copy_res(v):
 
 
 LEAF_EXC = {'sim': SimLeafError, 'type': SimTypeError, 'key': SimKeyError, 'value': SimValueError}
+
+
+class _Lazy:
+    """an awaitable object that is not a coroutine and does nothing until it is awaited (an RPC handle, say)"""
+
+    def __init__(self, coro):
+        self.coro = coro
+
+    def __await__(self):
+        return self.coro.__await__()
 
 
 class _Custom:
@@ -468,6 +493,9 @@ def execute(trace, ctx=None):
             o = c_nested(i, sub, gen['n']); coros.append((i, o, gen['n']))
         else:
             raise ValueError(k)
+        if leaf.get('lazy') and asyncio.iscoroutine(o):
+            o = _Lazy(o)
+            res.probe('lazy-awaitable-object')
         objs[i] = o
         if i in cancel_at and k != 'shared' and gen['n'] == 1:
             def do_cancel(o=o, i=i):
